@@ -12,7 +12,7 @@ from . import solver as S
 
 MAXP = 4
 RESERVED = ['index', 'size']  # legal variable names that collide with an attribute / a property of the container
-LINKER_SPANS = ['range', 'list_int', 'list_str', 'list_mixed']
+LINKER_SPANS = ['range', 'list_int', 'list_str', 'list_mixed', 'list_numstr']
 
 
 # ----------------------------------------------------------------------------
@@ -183,7 +183,7 @@ def generate_pairs(rng, idx, tier):
 
 
 _LABEL_POINTS = None
-LABEL_SYS_TYPES = ['range', 'range_step', 'list_int', 'list_str', 'list_mixed', 'np_int', 'np_str', 'pd_index_int', 'pd_index_str', 'pd_period_y', 'pd_period_q', 'pd_datetime']
+LABEL_SYS_TYPES = ['range', 'range_step', 'list_int', 'list_str', 'list_mixed', 'list_numstr', 'np_int', 'np_str', 'pd_index_int', 'pd_index_str', 'pd_period_y', 'pd_period_q', 'pd_datetime']
 
 
 def label_points():
@@ -278,6 +278,9 @@ def generate(rng, idx, tier, variant):
             subs[sid] = ms
         spec['linker'] = {'subs': subs, 'endo': ['L0'], 'exo': ['LX']}
         g['names'][0] = [('L0', 'float'), ('LX', 'float')]
+    if fam != 'vc' and rng.random() < 0.5:
+        # a model's bookkeeping series are container variables like any other (in `index`, not in `names`)
+        g['names'][0] = g['names'][0] + [('status', 'str'), ('iterations', 'int')]
     ops = []
     if fam == 'vc':
         for i in range(rng.randint(0, 4)):
@@ -1236,7 +1239,8 @@ def execute(schedule, ctx):
                 lab = absent(party, ctx.step % 4)
                 e = attempt(lambda: x[nm, lab])
                 ctx.check('C10', f'label/absent-get-must-raise-KeyError/span={sty}', isinstance(e, KeyError), {'exc': type(e).__name__ if e else None})
-                ctx.check('C09', 'contains', (nm in x) is True and ('nosuchvar' in x) is False, None)
+                if not ('names' in d and nm not in d['names']):  # `in` on a model asks about its `names`; the bookkeeping series are not among them
+                    ctx.check('C09', 'contains', (nm in x) is True and ('nosuchvar' in x) is False, None)
 
         elif kind == 'spawn':
             outcome = do_spawn(fsic, parties, party, op, ctx, classes, class_before, spec)
@@ -1585,7 +1589,7 @@ def do_reindex(fsic, parties, party, op, ctx, before_obs, universe_spec, spec):
         new_type = ty
     else:
         items = [uni_labels[j] for j in idxs]
-        if how == 'np' and ty not in ('list_mixed', 'pd_period_y', 'pd_period_q', 'pd_datetime'):
+        if how == 'np' and ty not in ('list_mixed', 'list_numstr', 'pd_period_y', 'pd_period_q', 'pd_datetime'):
             new_span = np.array(items)
             new_type = 'np'
         elif how == 'pd' and ty != 'list_mixed':
